@@ -15,10 +15,15 @@
     kinds / modes, incl. the leaf first frame and stacks that END with the outermost return-address
     slot; the stack part of `Pre` is proved, the side condition `gcfiSide` (which record covers
     which lookup address: module and CFI range tables) stays a hypothesis.
+  * `gcfiSide_one_module` / `walk_layout_cfi_generated_one_module` — for worlds of ONE module the side
+    condition follows from record-level facts: the module has a range, its STACK CFI records are
+    non-empty, inside the module and pairwise disjoint (`oneModOkB`), and the FIRST record of the list
+    covering each lookup address is the canonical one (`gcfiSideOne`: a linear search, no range tables).
 -/
 import MdProofs.C04
 import MdProofs.Lemmas.WalkGenFp
 import MdProofs.Lemmas.WalkGenCfi
+import MdProofs.Lemmas.WalkGenSide
 import MdProofs.C04Cfi
 namespace MdModel.Walk
 open MdModel
@@ -147,5 +152,54 @@ example : gcfiWords 1 0 [{ n := 3, saves := true, ret := 0x400120, fpv := 0 }, {
 example : (gcfiChain 8 0x8000 1 0x9000 [{ n := 3, saves := true, ret := 0x400120, fpv := 0 },
       { n := 2, saves := false, ret := 0x400500, fpv := 0 }]).map (fun e => (e.ret, e.sp, e.fp)) =
     [(0x400120, 0x8020, some 0), (0x400500, 0x8030, some 0)] := by decide
+
+/-- **the side condition from record-level facts, worlds of one module**: the module has a range,
+    every STACK CFI record is non-empty and inside the module, the records are pairwise disjoint
+    (`oneModOkB` — what `tidy_world` arranges, incl. the appended leaf FUNC/CFI pair); then the
+    module-table and CFI-range-table lookups of `gcfiSide` (sort, drop overlapping ranges, binary
+    search) are the linear search `gcfiSideOne` over the record list -/
+theorem gcfiSide_one_module (w : World) (m : Module) (sf : SymFile) (hmods : w.mods = [m])
+    (hsyms : w.syms = [some sf]) (hok : oneModOkB m sf = true) (a : Arch) (instr : Nat) (first : Bool)
+    (frames : List CfiFr) (h : gcfiSideOne m sf a instr first frames = true) :
+    gcfiSide w a instr first frames = true :=
+  gcfiSide_of_one w m sf (oneModOk_of_B m sf hok) hmods hsyms a frames instr first h
+
+/-- `walk_layout_cfi_generated` for worlds of one module, the side condition replaced by
+    record-level facts -/
+theorem walk_layout_cfi_generated_one_module (a : Arch) (os : Os) (m : Module) (sf : SymFile)
+    (base s0 tail : Nat) (frames : List CfiFr)
+    (ctx : Ctx) (heff : effArch a ctx = a)
+    (hv : ctx.valid = none) (hsp : ctx.sp = pAddr a.ptr base s0)
+    (hbase : 16 < base) (htop : base + a.ptr * (gcfiWords s0 tail frames).length ≤ a.regMax)
+    (hin : s0 < (gcfiWords s0 tail frames).length)
+    (hfp : stripOf a (mkEnv a os { mods := [m], syms := [some sf] }
+        (wordsMemP a.ptr base (gcfiWords s0 tail frames))).mask (ctx.raw a a.fpName) = ctx.raw a a.fpName)
+    (hmod : oneModOkB m sf = true)
+    (hside : gcfiSideOne m sf a ctx.ip true frames = true)
+    (hok : gcfiFramesOk a (mkEnv a os { mods := [m], syms := [some sf] }
+        (wordsMemP a.ptr base (gcfiWords s0 tail frames))).mask frames = true)
+    (hlr : ∀ c rest, frames = c :: rest → c.n = 0 → ctx.raw a (if a.isMips then "ra" else "lr") = c.ret)
+    (hend : tail = 0 ∨ gcfiLastFp (ctx.raw a a.fpName) frames = 0) :
+    walk (mkEnv a os { mods := [m], syms := [some sf] } (wordsMemP a.ptr base (gcfiWords s0 tail frames)))
+        (some (wordsMemP a.ptr base (gcfiWords s0 tail frames))) ctx =
+      symbolise (mkEnv a os { mods := [m], syms := [some sf] } (wordsMemP a.ptr base (gcfiWords s0 tail frames)))
+          (Frame.ofCtx ctx .context) ::
+        expectedCfi (mkEnv a os { mods := [m], syms := [some sf] } (wordsMemP a.ptr base (gcfiWords s0 tail frames)))
+          { mods := [m], syms := [some sf] } a (Frame.ofCtx ctx .context)
+          (gcfiChain a.ptr base s0 (ctx.raw a a.fpName) frames) :=
+  walk_layout_cfi_generated a os { mods := [m], syms := [some sf] } base s0 tail frames ctx heff hv hsp hbase htop
+    hin hfp (gcfiSide_one_module _ m sf rfl rfl hmod a ctx.ip true frames hside) hok hlr hend
+
+-- non-vacuity: a module with two functions with canonical records (3 words saving rbp; 2 words) and a
+-- function without; the record-level side condition holds of the two-frame chain through them
+example : oneModOkB { base := 0x400000, size := 0x1000, name := "m0" }
+    { cfis := [{ addr := 0x100, size := 0x80, init := ".cfa: $rsp 24 + .ra: .cfa -8 + ^ $rbp: .cfa -16 + ^", adds := [] },
+               { addr := 0x200, size := 0x80, init := ".cfa: $rsp 16 + .ra: .cfa -8 + ^", adds := [] }] } = true := by decide
+example : gcfiSideOne { base := 0x400000, size := 0x1000, name := "m0" }
+    { cfis := [{ addr := 0x100, size := 0x80, init := ".cfa: $rsp 24 + .ra: .cfa -8 + ^ $rbp: .cfa -16 + ^", adds := [] },
+               { addr := 0x200, size := 0x80, init := ".cfa: $rsp 16 + .ra: .cfa -8 + ^", adds := [] }] }
+    .amd64 0x400110 true
+    [{ n := 3, saves := true, ret := 0x400220, fpv := 0 }, { n := 2, saves := false, ret := 0x400500, fpv := 0 }] = true := by
+  rfl
 
 end MdModel.Walk
